@@ -47,6 +47,7 @@ type report struct {
 	Unrewritten  []string       `json:"unrewritten_sync_sites"`
 	Files        map[string]int `json:"edits_per_file"`
 	AccessSites  []string       `json:"access_sites"`
+	OtherFields  []string       `json:"scope_fields_probed_with_the_general_lockset_rule"`
 	FreshSkipped []string       `json:"fresh_local_accesses_skipped"`
 	Problems     []string       `json:"problems"`
 	Degraded     []string       `json:"degraded"`
@@ -168,6 +169,7 @@ func run(repo, out string, rep *report) error {
 				rw   bool
 			}
 			var mus []muField
+			var others []string
 			for _, fld := range st.Fields.List {
 				for _, nm := range fld.Names {
 					if nm.Name == "values" {
@@ -188,6 +190,22 @@ func run(repo, out string, rep *report) error {
 						})
 						if plain {
 							guardedFields[nm.Name] = true
+						}
+					}
+					if nm.Name != "values" && nm.Name != "types" && nm.Name != "externalLookup" && !isSyncMutex(fld.Type) {
+						// every other plain field of the struct (candidate; kept only if the struct turns out to be the scope type):
+						// probed with Eraser's lockset rule, since no particular lock is known to guard it
+						plain := true
+						ast.Inspect(fld.Type, func(n ast.Node) bool {
+							if se, ok := n.(*ast.SelectorExpr); ok {
+								if id, ok := se.X.(*ast.Ident); ok && (id.Name == "atomic" || id.Name == "sync") {
+									plain = false
+								}
+							}
+							return true
+						})
+						if plain {
+							others = append(others, nm.Name)
 						}
 					}
 					if nm.Name == "values" || nm.Name == "types" {
@@ -212,6 +230,12 @@ func run(repo, out string, rep *report) error {
 				}
 			}
 			if hasValues && mu != "" {
+				for _, o := range others {
+					guardedFields[o] = true
+					otherFields[o] = true
+				}
+				sort.Strings(others)
+				rep.OtherFields = others
 				rep.MutexField = mu
 				rep.scopeType, rep.scopeFile, rep.scopeMuRW = ts.Name.Name, fi.path, muIsRW
 				// which lock guards which table: a lock named after a table guards that table, else the first one
@@ -262,6 +286,11 @@ var skipTables map[string]bool
 
 // guardedFields: non-table fields of the scope type that get lockset probes (see the struct scan in run)
 var guardedFields = map[string]bool{}
+
+// otherFields: the subset of guardedFields probed with Eraser's rule (simrt.otherField); only accesses through a
+// plain identifier (`e.counter++`, `copy.order = ...`) are probed, so that the probe never evaluates an expression
+// the statement itself might guard or that has side effects
+var otherFields = map[string]bool{}
 
 func isSyncMutex(e ast.Expr) bool {
 	se, ok := e.(*ast.SelectorExpr)
@@ -520,6 +549,13 @@ func (rw *rewriter) tableSel(e ast.Expr) (string, bool, bool) {
 		return "", false, false
 	}
 	x := rw.text(se.X)
+	if otherFields[se.Sel.Name] {
+		id, isIdent := se.X.(*ast.Ident)
+		if !isIdent || id.Obj == nil {
+			// not a plain local / parameter / receiver (an imported package has no Obj either)
+			return "", false, false
+		}
+	}
 	if id, ok := se.X.(*ast.Ident); ok && rw.fresh[id.Name] {
 		rw.rep.FreshSkipped = append(rw.rep.FreshSkipped, rw.where(se.Pos())+" "+x)
 		return x, true, true
@@ -598,7 +634,27 @@ func (rw *rewriter) scanLHS(l ast.Expr, acc *[]access) {
 			return
 		}
 	}
-	rw.scan(l, acc, false)
+	// a store THROUGH a guarded field (`e.stats.Lookups++`, `e.order[i].name = ...`, `*e.cell = v`) writes what the
+	// field holds: noted as a write of the field (the rest of the expression is scanned as reads)
+	for inner := l; ; {
+		switch x := inner.(type) {
+		case *ast.SelectorExpr:
+			inner = x.X
+		case *ast.IndexExpr:
+			rw.scan(x.Index, acc, false)
+			inner = x.X
+		case *ast.ParenExpr:
+			inner = x.X
+		case *ast.StarExpr:
+			inner = x.X
+		default:
+			rw.scan(l, acc, false)
+			return
+		}
+		if se, ok := inner.(*ast.SelectorExpr); ok && otherFields[se.Sel.Name] && rw.note(inner, true, acc) {
+			return
+		}
+	}
 }
 
 func (rw *rewriter) walkBlock(b *ast.BlockStmt, acc *[]access) {
